@@ -106,7 +106,7 @@ def gen_case(rng, idx):
             apps.append({"what": "stack_grad", "term": term, "kind": 0, "in": {}, "args": (so, orders)})
         for bsz in (rng.randint(1, 6), rng.randint(2, 5)):
             jc = {o: ((bsz,) + tuple(prog.shapes[o]), rand_vals(rng, bsz * numel(prog.shapes[o]))) for o in outs}
-            for k in [None, 1, 2, bsz + 1]:
+            for k in [None] + list(range(1, bsz + 2)):          # every chunk size, ragged last chunks included
                 kk = "None" if k is None else f"(Some {k}%nat)"
                 apps.append({"what": "jac", "kind": 2, "in": jc, "args": (outs, ins, k),
                              "term": f"(TJac {ajlib.c_natlist(outs)} {ajlib.c_natlist(ins)} {kk} true)"})
